@@ -345,3 +345,18 @@ Definition vloc (v : value) : option loc := match v with VArr l | VObj l => Some
 Definition acyclic (h : heap) : Prop :=
   exists rank : loc -> nat, forall l c x l', hget h l = Some c -> In x (cell_values c) -> vloc x = Some l' -> (rank l' < rank l)%nat.
 Definition heap_ok (h : heap) : bool := forallb (cell_ok h) h.
+
+(* ====================================================================== E. well-formed histories over a table (as wf_op / wf_hist of
+   Proofs/C15spec.v, with the table of operations a parameter) *)
+Definition wf_op_in (tbl : list (str * spfun)) (st : env * heap) (o : op) : bool :=
+  match o with
+  | OCall f l => in_tbl tbl f && forallb (wf_arg st) l
+  | OAlias n => Nat.ltb n (length (fst st))
+  | OLit v => val_ok (snd st) v
+  end.
+Fixpoint wf_hist_in (tbl : list (str * spfun)) (ops : list op) (st : env * heap) : bool :=
+  match ops with
+  | [] => true
+  | o :: t => wf_op_in tbl st o && match run_op (Some st) o with Some st' => wf_hist_in tbl t st' | None => true end
+  end.
+Definition wf_hist_s := wf_hist_in spec_table_s.
